@@ -39,7 +39,7 @@ pub fn is_version_error(r: &Response) -> bool { match r { Response::VersionError
 pub fn resp_class(r: &Response) -> u8 { match r { Response::Ok {} => 0, Response::Set { .. } => 1, Response::Value { .. } => 2, Response::Error { .. } => 3, Response::VersionError { .. } => 4 } }
 
 /// create database `name` (token "tok") with the given strategy word through the admin command
-pub fn create_db(dbs: &Arc<Databases>, name: &str, strategy: &str) {
+pub fn mk_db(dbs: &Arc<Databases>, name: &str, strategy: &str) {
     let (mut c, _rx) = admin_client(dbs);
     let cmd = ["create-db ", name, " tok ", strategy].concat();
     let r = process_request(&cmd, dbs, &mut c);
